@@ -90,8 +90,12 @@ class MessageExtractor:
                 if node.escapes:
                     # the arguments of filter calls are Python too
                     # keep the filters on the line they are written on
-                    code += (
-                        " |"
+                    # parenthesised: the pieces keep their own indentation,
+                    # which the tokenizer must not read as block structure
+                    code = (
+                        "("
+                        + code
+                        + " |"
                         + "\n"
                         * (
                             node.escapes_lineno_offset
@@ -99,6 +103,7 @@ class MessageExtractor:
                         )
                         + " "
                         + node.escapes
+                        + ")"
                     )
             else:
                 continue
